@@ -949,64 +949,60 @@ func (c07) Shrink(plan any) []any {
 		q.Preempts = append(q.Preempts[:i], q.Preempts[i+1:]...)
 		out = append(out, q)
 	}
-	// drop a whole task (only the last, to keep indices stable) if no preemption refers to it
-	if n := len(p.Tasks); n > 1 {
+	// drop a whole task that no preemption refers to (indices above it shift down)
+	for ti := len(p.Tasks) - 1; ti >= 0 && len(p.Tasks) > 1; ti-- {
 		used := false
 		for _, pr := range p.Preempts {
-			if pr.Task == n-1 || pr.To == n-1 {
+			if pr.Task == ti || pr.To == ti {
 				used = true
 			}
 		}
-		if !used {
-			q := cp()
-			q.Tasks = q.Tasks[:n-1]
-			var ord []int
-			for _, o := range q.Order {
-				if o != n-1 {
-					ord = append(ord, o)
+		if used {
+			continue
+		}
+		q := cp()
+		q.Tasks = append(q.Tasks[:ti], q.Tasks[ti+1:]...)
+		var ord []int
+		for _, o := range q.Order {
+			switch {
+			case o == ti:
+			case o > ti:
+				ord = append(ord, o-1)
+			default:
+				ord = append(ord, o)
+			}
+		}
+		q.Order = ord
+		for k := range q.Preempts {
+			if q.Preempts[k].Task > ti {
+				q.Preempts[k].Task--
+			}
+			if q.Preempts[k].To > ti {
+				q.Preempts[k].To--
+			}
+		}
+		out = append(out, q)
+	}
+	// drop one operation that no preemption refers to (later operation indices of that task shift down)
+	for ti, t := range p.Tasks {
+		for oi := len(t.Ops) - 1; oi >= 0 && len(t.Ops) > 1; oi-- {
+			used := false
+			for _, pr := range p.Preempts {
+				if pr.Task == ti && pr.Op == oi {
+					used = true
 				}
 			}
-			q.Order = ord
-			out = append(out, q)
-		}
-	}
-	// drop the last op of a task if no preemption refers to it
-	for ti, t := range p.Tasks {
-		if len(t.Ops) <= 1 {
-			if len(t.Ops) == 1 {
+			if used {
 				continue
 			}
-		}
-		last := len(t.Ops) - 1
-		used := false
-		for _, pr := range p.Preempts {
-			if pr.Task == ti && pr.Op == last {
-				used = true
-			}
-		}
-		if !used && last >= 1 {
 			q := cp()
-			q.Tasks[ti].Ops = q.Tasks[ti].Ops[:last]
+			q.Tasks[ti].Ops = append(append([]COp{}, t.Ops[:oi]...), t.Ops[oi+1:]...)
+			for k := range q.Preempts {
+				if q.Preempts[k].Task == ti && q.Preempts[k].Op > oi {
+					q.Preempts[k].Op--
+				}
+			}
 			out = append(out, q)
-		}
-		// drop the first op, shifting preemption indices
-		if len(t.Ops) > 1 {
-			usedFirst := false
-			for _, pr := range p.Preempts {
-				if pr.Task == ti && pr.Op == 0 {
-					usedFirst = true
-				}
-			}
-			if !usedFirst {
-				q := cp()
-				q.Tasks[ti].Ops = q.Tasks[ti].Ops[1:]
-				for k := range q.Preempts {
-					if q.Preempts[k].Task == ti {
-						q.Preempts[k].Op--
-					}
-				}
-				out = append(out, q)
-			}
 		}
 	}
 	// drop re-entrant ops; simplify ops
